@@ -45,6 +45,31 @@ def run(tier, seed):
         pack.extra['models'] = len(bundles)
         from contracts import C03_assembly
         C03_assembly.add_obligations(pack, ss, tier)
+        bounded_fd(pack)
     finally:
         shutil.rmtree(d, ignore_errors=True)
     return pack.finish()
+
+
+def bounded_fd(pack):
+    """bounded native stand-in for the assembled-level clause: finite differences of the assembled residual"""
+    from contracts.packutil import native_guard
+    from contracts import bounded_jacobian_fd as FD
+    name = 'C03/andes/system.py:System.j_update/bounded:assembled-matrices-agree-with-finite-differences-of-the-assembled-residual'
+    del FD.seen_known[:]
+    r = native_guard(pack, name, FD.run)
+    if r is None:
+        return
+    n, bad = r
+    pack.bounded.append({'function': 'System.j_update / fg_update (assembled level)', 'columns_compared': n, 'counted_as_proved': False,
+                         'kind': 'bounded native: central finite differences on %s, before and after opening a line' % ', '.join(FD.CASES)})
+    if FD.seen_known:
+        kname = name + ':F33'
+        if pack.known_for(kname):
+            for k in pack.known_for(kname):
+                pack.known_finding(k)
+        elif not bad:
+            row = FD.seen_known[0]
+            bad = {'case': row[0], 'observed': 'd(%s)/d(%s) is missing from the assembled matrices (%d such entries)' % (row[1], row[2], len(FD.seen_known))}
+    if bad:
+        pack.violation(name, {'bounded': True, 'inputs': bad, 'native_cmd': 'contracts/bounded_jacobian_fd.py'})
